@@ -477,6 +477,36 @@ func runC15(r *engine.Run) {
 		}
 		// directed deep history (both tiers): seven CFList-capable additions, so the
 		// five-entry cap and a sixth/seventh custom channel are observed
+		// far indices (values a narrowing conversion folds onto valid channel numbers): errors, never panics
+		r.PartDims("far-indices/"+string(name), []string{fmt.Sprintf("far integers:%d", len(farInts())), "accessor{GetUplinkChannel, GetDownlinkChannel, Disable, Enable, GetTXPowerOffset, GetDataRate}"}, uint64(len(farInts())), func(c *engine.Case) {
+			v := farInts()[c.Index]
+			b := newBand(cfg)
+			n := len(b.GetUplinkChannelIndices())
+			if v >= 0 && v < n {
+				c.Outcome("far-indices/in-range(skipped)")
+				return
+			}
+			c.Eval()
+			c.NonTrivial()
+			calls := map[string]func() error{
+				"GetUplinkChannel":          func() error { _, err := b.GetUplinkChannel(v); return err },
+				"GetDownlinkChannel":        func() error { _, err := b.GetDownlinkChannel(v); return err },
+				"DisableUplinkChannelIndex": func() error { return b.DisableUplinkChannelIndex(v) },
+				"EnableUplinkChannelIndex":  func() error { return b.EnableUplinkChannelIndex(v) },
+				"GetTXPowerOffset":          func() error { _, err := b.GetTXPowerOffset(v); return err },
+				"GetDataRate":               func() error { _, err := b.GetDataRate(v); return err },
+			}
+			for _, nm := range []string{"GetUplinkChannel", "GetDownlinkChannel", "DisableUplinkChannelIndex", "EnableUplinkChannelIndex", "GetTXPowerOffset", "GetDataRate"} {
+				var err error
+				if pn, site, val := engine.Try(func() { err = calls[nm]() }); pn {
+					c.Fail("panic/"+site, fmt.Sprintf("%v: %s(%d) panics: %v", name, nm, v, val), nil)
+					continue
+				}
+				if err == nil {
+					c.Fail("invalid-index-accepted/"+nm, fmt.Sprintf("%v: %s(%d) with %d channels succeeded", name, nm, v, n), nil)
+				}
+			}
+		})
 		if !env.init.SupportsExtraChannels {
 			// directed block histories (both tiers): every pattern of whole 16-channel
 			// blocks switched off by real Disable calls (a CFList with all-zero masks
